@@ -40,3 +40,16 @@ def inner_second_trace_raises(x):
 def shape_scaled(x):
     # uses a symbolic dimension inside a function body
     return x * (x.shape[0] * 1.0) + x.shape[1]
+
+
+@onnx_function
+def flagged(x, p=True):
+    # consumes a call-time parameter inside a function body
+    return jnp.where(p, x, -x)
+
+
+@onnx_function
+def rev_scan_fn(x):
+    from jax import lax
+
+    return lax.scan(lambda c, e: (c + e, c), jnp.float32(0.0), x, reverse=True)[1]
